@@ -49,7 +49,11 @@ var mutations = map[string]mutation{
 	"c12-signer-unchecked":         one("C12", "kmipclient/sign_verify.go", "\t\tpubKey, ok := c.publicKey.(*ecdsa.PublicKey)\n\t\tif !ok {", "\t\tpubKey, ok := c.publicKey.(*ecdsa.PublicKey), true\n\t\tif !ok {"),
 	"c08-http-type-panic":          one("C08", "ttlv/encoding_json.go", "\t// Unknown type name: report the invalid type 0, which no reading method\n\t// accepts, so that the caller gets an encoding error instead of a panic.\n\treturn Type(0)", "\tpanic(\"Invalid type\")"),
 	"c08-alloc-by-announced-count": one("C08", "kmipserver/router.go", "\tif int(req.Header.BatchCount) != len(req.BatchItem) {", "\tif n := int(req.Header.BatchCount); n > 0 {\n\t\tprealloc := make([]kmip.ResponseBatchItem, n)\n\t\t_ = prealloc\n\t}\n\tif int(req.Header.BatchCount) != len(req.BatchItem) {"),
-	"c08-json-goquote":             one("C08", "ttlv/encoding_json.go", "\t\treturn appendJSONString(b, str)", "\t\treturn strconv.AppendQuote(b, str)"),
+	"c08-conn-deadline-never-cleared": {"C08", []edit{
+		{"kmipserver/conn.go", "\tc.tx.Store(make(chan txMsg))\n\tc.loops.Add(2)", "\t_ = netCon.SetDeadline(time.Now().Add(10 * time.Second))\n\tc.tx.Store(make(chan txMsg))\n\tc.loops.Add(2)"},
+		{"kmipserver/conn.go", "import (\n", "import (\n\t\"time\"\n"},
+	}},
+	"c08-json-goquote": one("C08", "ttlv/encoding_json.go", "\t\treturn appendJSONString(b, str)", "\t\treturn strconv.AppendQuote(b, str)"),
 	// C13
 	"c13-fallback":                one("C13", "kmipclient/client.go", "if !slices.Contains(c.supportedVersions, kmip.V1_0) {", "if false {"),
 	"c13-first-listed":            one("C13", "kmipclient/client.go", "if best == nil || ttlv.CompareVersions(v, *best) > 0 {", "if best == nil {"),
